@@ -3,7 +3,7 @@ import JivaVerif.Drv.Controller
 /-! Line-protocol driver for the whole-volume model (`drv cluster`).
 
 Requests: `init rf n`, `reg i | e` (`e`: the replica the election loop ended on, `-` = none),
-`w fails | applied`, `add i`, `setrb i`, `promote i src`, `rbdone i`, `rm i`, `snap`, `stop`.
+`w fails | applied`, `add i`, `setrb i`, `promote i src`, `rbdone i`, `rm i`, `snap`, `regq`, `stop`.
 Answer: result, then the observable state — which replicas are attached in which mode, and for every
 directory its counter, its rebuilding flag, the writes it holds and the volume snapshots it holds — then the ghost part
 (acknowledged writes, and whether this stop found the volume in good health). -/
@@ -22,6 +22,7 @@ def parseClusterOp (n : Nat) (ws : List String) : Option Op :=
   | ["rbdone", i] => do some (.rbdone (← i.toNat?))
   | ["rm", i] => do some (.remove (← i.toNat?))
   | ["snap"] => some .snap
+  | ["regq"] => some .regq
   | ["stop"] => some .stop
   | _ => none
 
